@@ -360,9 +360,65 @@ def interp_flatten_section(ctx):
                     break
 
 
+def variable_composite_section(ctx):
+    """composites in a VARIABLE TrueType font: a glyph made of two or three components, ONE of which -- the first, the second
+    or the last -- has a 2x2 that differs between the masters (one entry at a time).  Such a glyph cannot stay a composite
+    (gvar has no component matrices); whatever the compiler does, the variable font instantiated at each master's location
+    must render every glyph like that master compiled alone"""
+    import ufo2ft
+    from harness import dsgen
+    from harness.props.c13 import flat_contours, same_rendering
+    from fontTools.ttLib import TTFont
+    from fontTools.varLib import instancer
+    rng = ctx.subrng("variable-composites")
+    sq = lambda x, y, d: [[(Fr(x), Fr(y), "line"), (Fr(x + d), Fr(y), "line"), (Fr(x + d), Fr(y + d), "line"), (Fr(x), Fr(y + d), "line")]]
+    for i in range(ctx.budget(6, 24)):
+        lib = ["ufoLib2", "defcon"][i % 2]
+        which = i % 3                       # index of the component whose matrix differs
+        entry = (i // 3) % 4                # xx, xy, yx, yy
+        def master(k):
+            d = 30 * k
+            def mat(j):
+                m = [Fr(1), Fr(0), Fr(0), Fr(1)]
+                if j == which and k == 1:
+                    m[entry] = m[entry] + Fr(1, 4)
+                return tuple(m)
+            comps = [("a", mat(0) + (Fr(0), Fr(0))), ("b", mat(1) + (Fr(300 + d), Fr(0))), ("a", mat(2) + (Fr(0), Fr(400)))]
+            return {"glyphs": [{"name": "a", "unicodes": [0x61], "width": Fr(500 + d), "contours": sq(0, 0, 200 + d), "components": [], "anchors": []},
+                               {"name": "b", "unicodes": [0x62], "width": Fr(520 + d), "contours": sq(10, 20, 150 + d), "components": [], "anchors": []},
+                               {"name": "abc", "unicodes": [0x63], "width": Fr(900 + d), "contours": [], "anchors": [], "components": comps},
+                               {"name": "plain", "unicodes": [0x64], "width": Fr(700), "contours": [], "anchors": [],
+                                "components": [("a", (Fr(1), Fr(0), Fr(0), Fr(1), Fr(5 + d), Fr(0))), ("b", (Fr(1), Fr(0), Fr(0), Fr(1), Fr(300), Fr(d)))]}],
+                    "glyphOrder": ["a", "b", "abc", "plain"], "kerning": {}, "groups": {}, "lib": {},
+                    "info": {"familyName": "Fam", "styleName": "M%d" % k, "unitsPerEm": 1000, "ascender": 800, "descender": -200}}
+        masters = [master(0), master(1)]
+        case = {"function": "compileVariableTTF", "lib": lib, "component_with_differing_matrix": which, "matrix_entry": ["xx", "xy", "yx", "yy"][entry],
+                "masters": [jsonable(m) for m in masters]}
+        ctx.count(); ctx.klass("variable composite: component %d differs in %s" % (which, ["xx", "xy", "yx", "yy"][entry])); ctx.nontriv(("vc", i, ctx.scale))
+        try:
+            ds, fonts = dsgen.make_designspace(rng, masters, lib, instances=False)
+            vf = ufo2ft.compileVariableTTF(ds, useProductionNames=False)
+            b = io.BytesIO(); vf.save(b)
+            alone = [ufo2ft.compileTTF(build_font(m, lib), useProductionNames=False) for m in masters]
+        except Exception as e:
+            ctx.spec_failure(case, "compile raised %s: %s\n%s" % (type(e).__name__, e, traceback.format_exc()[-1000:]))
+            continue
+        for k, wght in enumerate([100, 900]):
+            inst = instancer.instantiateVariableFont(TTFont(io.BytesIO(b.getvalue())), {"wght": wght})
+            b2 = io.BytesIO(); inst.save(b2); inst = TTFont(io.BytesIO(b2.getvalue()))
+            b3 = io.BytesIO(); alone[k].save(b3); ref = TTFont(io.BytesIO(b3.getvalue()))
+            bad = [n for n in ("a", "b", "abc", "plain") if not same_rendering(flat_contours(ref, n), flat_contours(inst, n), tol=1.5)
+                   or abs(inst["hmtx"][n][0] - ref["hmtx"][n][0]) > 1]
+            if bad:
+                ctx.spec_failure(dict(case, master=k, glyphs=bad),
+                                 "at master %d's location the variable font renders %r differently from that master compiled alone" % (k, bad))
+                break
+
+
 def cubic_distance_test(ctx, rng):
     skip_flatten_test(ctx, rng)
     unrounded_distance_test(ctx, rng)
+    variable_composite_section(ctx)
     import ufo2ft
     from fontTools.ttLib import TTFont
     for i in range(ctx.budget(12, 80)):
